@@ -980,6 +980,22 @@ def _check_completed(w, pid, res, k, inc, cfg, pname, pred, final_name, parts, s
                 add_violation(res, pid + ".merge", k, "variation %d: choice counts %s / total %s, the successful repetitions give %s / %d (loaded=%s)" % (
                     v, got_ch, chr_._total, want_ch, len(e["ids"]), e["loaded"]), dict(sig_f, loaded=e["loaded"], result="choice"))
                 return
+            if k == 0 and not plan.get("clock_faults") and not e["loaded"] and not sig_f.get("after_fault"):
+                # what the runner itself records per repetition obeys the same law: the skipped repetitions are counted
+                # as skipped, and the stored elapsed time is the sum over the successful repetitions (virtual clock)
+                nskip = sum(1 for t in w.trace if t[0] == v and t[2] == "skip")
+                dsum = sum(w.outcome(pname, t[0], t[1])[3] for t in w.trace if t[0] == v and t[2] == "ok")
+                got_sk = results["num_skipped_reps"][v].get_result()
+                got_el = float(results["elapsed_time"][v].get_result())
+                if int(got_sk) != nskip:
+                    add_violation(res, pid + ".counts", k, "variation %d: num_skipped_reps=%r but %d repetitions were skipped" % (v, got_sk, nskip),
+                                  dict(sig_f, result="num_skipped_reps"))
+                    return
+                if abs(got_el - dsum) > 1e-5 * (1 + len(e["ids"])):
+                    add_violation(res, pid + ".merge", k, "variation %d: stored elapsed_time %.9g, the successful repetitions took %.9g (virtual seconds)" % (v, got_el, dsum),
+                                  dict(sig_f, result="elapsed_time"))
+                    return
+                bump(w.probes, "runner_recorded_extras_checked")
             if w.script.get("hist"):
                 got_h = [int(x) for x in np.asarray(results["hist"][v].get_result()).ravel()]
                 if got_h != hist_sum(e["ids"]) or results["hist"][v].num_updates != e["rep"]:
